@@ -10,10 +10,14 @@ package noise
 // errors after tampering.  L2: path bookkeeping (qbuf/qseek, nonces, frames in flight).
 
 import (
+	"bufio"
 	"context"
 	"crypto/rand"
 	"fmt"
+	"sync/atomic"
 	"testing"
+
+	"github.com/flynn/noise"
 
 	pool "github.com/libp2p/go-buffer-pool"
 	"github.com/libp2p/go-libp2p/core/crypto"
@@ -75,16 +79,34 @@ func vfC02Handshake(a, b *vfC02Peer) (*secureSession, *secureSession, *vfc02.Con
 	return c.(*secureSession), o.s, ca, cb, nil
 }
 
-// vfC02Poison makes a buffer that was handed back to the pool too early visible: every size class is
-// taken, overwritten and returned after each step.
-func vfC02Poison(int) {
-	for sz := 32; sz <= 1<<17; sz <<= 1 {
-		b := pool.Get(sz)
-		for i := range b {
-			b[i] = 0xA5
+// vfC02Clone builds a session pair in the state a handshake leaves behind (same keys, nonces 0, nothing
+// queued) over a fresh pipe, without repeating the X25519/Ed25519 work: the handshake is C01's subject,
+// and one walk in 32 still runs the real one.
+func vfC02Clone(ini, rsp *secureSession) (*secureSession, *secureSession, *vfc02.Conn, *vfc02.Conn) {
+	ca, cb := vfc02.NewPair(vfc02.NoiseFramer)
+	mk := func(t *secureSession, c *vfc02.Conn) *secureSession {
+		return &secureSession{
+			initiator: t.initiator, checkPeerID: t.checkPeerID, localID: t.localID, localKey: t.localKey,
+			remoteID: t.remoteID, remoteKey: t.remoteKey, insecureConn: c, insecureReader: bufio.NewReader(c),
+			enc:             noise.UnsafeNewCipherState(cipherSuite, t.enc.UnsafeKey(), 0),
+			dec:             noise.UnsafeNewCipherState(cipherSuite, t.dec.UnsafeKey(), 0),
+			connectionState: t.connectionState,
 		}
-		pool.Put(b)
 	}
+	return mk(ini, ca), mk(rsp, cb), ca, cb
+}
+
+// vfC02Poison makes a buffer that was handed back to the pool too early visible: after each step a
+// buffer of the size class of the frame just handled is taken, overwritten and returned.
+func vfC02Poison(frameLen int) {
+	if frameLen <= 0 {
+		return
+	}
+	b := pool.Get(frameLen)
+	for i := range b {
+		b[i] = 0xA5
+	}
+	pool.Put(b)
 }
 
 var vfC02NoiseScale = vfc02.Scale{
@@ -114,12 +136,28 @@ func TestVerifC02Noise(t *testing.T) {
 	if err != nil {
 		t.Fatal(err)
 	}
+	// template pair: one real handshake whose keys the cloned sessions reuse
+	tini, trsp, tca, tcb, err := vfC02Handshake(a, b)
+	if err != nil {
+		t.Fatal(err)
+	}
+	defer tca.Close()
+	defer tcb.Close()
+	var real atomic.Int64
+	defer func() { res.Set("noise_real_handshakes", int(real.Load())) }()
 	cfg := vfc02.ChanCfg{
 		Layer: "noise", Scale: vfC02NoiseScale, LenOff: []int{0, 1}, Exact: true,
 		New: func(walk int) (*vfc02.ChanSession, error) {
-			ini, rsp, ca, cb, err := vfC02Handshake(a, b)
-			if err != nil {
-				return nil, err
+			var ini, rsp *secureSession
+			var ca, cb *vfc02.Conn
+			if walk%32 == 0 {
+				var err error
+				if ini, rsp, ca, cb, err = vfC02Handshake(a, b); err != nil {
+					return nil, err
+				}
+				real.Add(1)
+			} else {
+				ini, rsp, ca, cb = vfC02Clone(tini, trsp)
 			}
 			ws, rs, wire, note := ini, rsp, cb.In, "initiator writes"
 			if walk%2 == 1 {
